@@ -42,4 +42,16 @@ pub open spec fn dep_followed(gk: GraphKind, in_dyn: bool, d0: Dependency, d1: D
             &&& dyn1 == dyn0 && m1 == m0
         }
 }
+/// the load requests one recorded dependency causes in this pass: none when dynamic imports are skipped, none (now)
+/// for a dynamic import met outside a dynamic branch, otherwise its followed targets, code first
+pub open spec fn dep_requests(gk: GraphKind, in_dyn: bool, skip: bool, d: Dependency) -> Seq<LoadRequest> {
+    if d.is_dynamic && skip { Seq::empty() }
+    else if d.is_dynamic && !in_dyn { Seq::empty() }
+    else { push_req(push_req(Seq::empty(), code_edge(gk, d), in_dyn), type_edge(gk, d), in_dyn) }
+}
+pub open spec fn reqs_upto(gk: GraphKind, in_dyn: bool, skip: bool, vals: Seq<Dependency>, n: int) -> Seq<LoadRequest>
+    decreases n
+{
+    if n <= 0 { Seq::empty() } else { reqs_upto(gk, in_dyn, skip, vals, n - 1) + dep_requests(gk, in_dyn, skip, vals[n - 1]) }
+}
 } // verus!
